@@ -12,8 +12,8 @@ from . import core, passes, impl, project, render, gates
 
 PROP = 'C01'
 CONFIGS = {
-    'quick': [('roundtrip', ('H_R', 'M_R', 'T_R', 'O_R', 3, 3), 5000)],
-    'thorough': [('roundtrip', ('H_R', 'M_R', 'T_R', 'O_R', 4, 4), 150000)],
+    'quick': [('roundtrip', ('H_R', 'M_R', 'T_R', 'O_R', 2, 3), 1500)],
+    'thorough': [('roundtrip', ('H_R', 'M_R', 'T_R', 'O_R', 3, 3), 40000)],
 }
 
 
@@ -76,7 +76,7 @@ def main(tier):
     if skipped:
         rep.notes.append('example of a program that could not be constructed: %s | %s' % (skipped[0]['why'], skipped[0]['src'][:200]))
     rep.phase('replay')
-    verdicts, stats = core.validate('Conform_RT', recs, wd, shard_size=1500)
+    verdicts, stats = core.validate('Conform_RT', recs, wd, shard_size=400)
     rep.phase('tlc_validation')
     for f in rep.findings:
         if 'witness' in f:
